@@ -12,6 +12,8 @@ import (
 	"fmt"
 	"hash"
 	"math/rand"
+	"os"
+	"runtime/debug"
 	"sort"
 	"strings"
 )
@@ -208,6 +210,9 @@ func ExecPlan(sc Scenario, p Plan, keepLog bool) (res *Result) {
 	rec := NewRec(p.Focus, keepLog)
 	defer func() {
 		if e := recover(); e != nil {
+			if os.Getenv("TSIM_DEBUG") != "" {
+				fmt.Fprintf(os.Stderr, "panic: %v\n%s\n", e, debug.Stack())
+			}
 			rec.HarnessFail(fmt.Sprintf("panic in interpreter at step %d: %v", rec.step, e))
 			res = rec.Finish()
 		}
